@@ -290,7 +290,10 @@ func (idx *HNSWIndex) Add(vector VectorNode) error {
 		return nil
 	}
 
-	// Insert into graph
+	// Insert into graph. The node is registered first: pruneConnections looks
+	// neighbours up in idx.nodes and would otherwise drop every edge that
+	// points to the node being inserted as soon as a neighbour's list is full.
+	idx.nodes[id] = node
 	idx.insertNode(node)
 	idx.nodes[id] = node
 
